@@ -88,6 +88,10 @@ def path_cases(tier, rng):
     for d in (0, 1):
         for h in corpus:
             yield hist_case(d, True, h, src="corpus")
+        # nodes but no snapshot: nodes added with add_node only, interactions forgotten by clear_edges / clear
+        for h in ([["node", 1], ["node", 2]], [A(1, 2, 1), A(2, 3, 2), ["clearedges"]], [A(1, 2, 1, 4), ["clear"], ["node", 1], ["node", 3]],
+                  [["node", 2], A(1, 2, 3), ["clearedges"], ["node", 4]]):
+            yield hist_case(d, True, h, src="corpus-no-snapshots")
     # a query, then a change of the graph that keeps the snapshot ids, the number of pairs and the total volume, then
     # the same query again (warm-up queries are forced right before the change): clear() + relabelled refill, and a
     # further run of an existing pair on existing ids
@@ -533,6 +537,9 @@ class C14:
         ps = case["paths"]
         if oracles.is_err(r):
             return [F("C14.raised", paths=ps, got=r)]
+        if isinstance(r, str):
+            # impl-side cross check of op_annot (fractional instants)
+            return [F("C14.fractional_instants", paths=ps, got=r)]
         fails = []
         ln = [len(p) for p in ps]
         du = [p[-1][2] - p[0][2] for p in ps]
